@@ -304,6 +304,8 @@ class ReqRun:
         conn.send_raw(rest)
 
     def event(self, conn, kind="ok"):
+        if getattr(conn, "half_closed", False):
+            return                                        # the accessory has shut down its sending side
         n = self.ev_n.get(conn.id, 0) + 1
         self.ev_n[conn.id] = n
         self.log("acc_tx", s=conn.id + 1, kind="event", n=n)
@@ -492,20 +494,20 @@ def hung_run(rng: random.Random, rid):
         r.settle()
         cur = r.net.conns[-1]
         for _ in range(rng.randrange(0, 3)):
-            if cur.open and cur.verified and r.next_r <= r.nreq:
+            if cur.open and cur.verified and not getattr(cur, 'half_closed', False) and r.next_r <= r.nreq:
                 r.issue()
                 r.settle()
                 if cur.unanswered:
                     r.respond(cur, "resp")
                 r.settle()
-        if rng.random() < 0.5 and cur.open and cur.verified:
+        if rng.random() < 0.5 and cur.open and cur.verified and not getattr(cur, 'half_closed', False):
             r.event(cur)
             r.settle()
         r.peer_close(first, "rst")         # the abandoned socket finally dies
         r.settle()
         cur2 = r.net.conns[-1]
         for _ in range(rng.randrange(1, 3)):
-            if cur2.open and cur2.verified and r.next_r <= r.nreq:
+            if cur2.open and cur2.verified and not getattr(cur2, 'half_closed', False) and r.next_r <= r.nreq:
                 r.issue()
                 r.settle()
                 if cur2.unanswered:
